@@ -604,6 +604,39 @@ func Gen(r *core.Rng, o GenOpts) (*History, gen.Set) {
 	if maxOps == 0 {
 		maxOps = 12
 	}
+	pre := -1
+	if o.NewOps && o.Clones {
+		pre = r.Intn(6)
+	}
+	if pre == 1 && nextVar+2 < h.NVar {
+		// New(name) over a template whose body is empty, then a clone, then the same Parse with an
+		// empty main body into the new handle of the original and of the clone: both refuse it
+		// (K110: the clone had accepted it)
+		add(Op{Kind: "parse", H: 0, Dst: 0, Text: r.Pick([]string{`{{define "eh"}}{{end}}`, `{{define "eh"}} {{/* c */}} {{end}}`, `{{define "eh"}}<b>old {{$.S0}}</b>{{end}}`})})
+		add(Op{Kind: "tnew", H: 0, Dst: nextVar, Name: "eh"})
+		add(Op{Kind: "clone", H: 0, Dst: nextVar + 1})
+		add(Op{Kind: "lookup", H: nextVar + 1, Dst: nextVar + 2, Name: "eh"})
+		later := r.Pick([]string{`{{define "g2"}}<i>{{template "eh" .}}</i>{{end}}`, ` {{define "g2"}}{{tick}}<i title="{{template "eh" .}}">x</i>{{end}} `, `{{define "g2"}}<i>{{template "eh" .}}</i>{{end}}{{tick}}body {{$.S0}}`})
+		add(Op{Kind: "parse", H: nextVar + 2, Dst: nextVar + 2, Text: later})
+		add(Op{Kind: "parse", H: nextVar, Dst: nextVar, Text: later})
+		add(Op{Kind: "exect", H: nextVar + 1, Dst: -1, Name: "g2", Data: r.Intn(len(h.Data))})
+		add(Op{Kind: "exect", H: 0, Dst: -1, Name: "g2", Data: r.Intn(len(h.Data))})
+		nextVar += 3
+	}
+	if pre == 0 && nextVar+1 < h.NVar {
+		// the first execution of the set is one that fails before any analysis: Execute on a
+		// handle that New declared without a body. It is an execution all the same: the handle
+		// cannot be cloned or parsed into afterwards (seeded C07-m9, C07-m10)
+		bl := nextVar
+		nextVar++
+		add(Op{Kind: "tnew", H: 0, Dst: bl, Name: r.Pick([]string{"fresh", "bodyless"})})
+		add(Op{Kind: []string{"exec", "exechtml"}[r.Intn(2)], H: bl, Dst: -1, Data: r.Intn(len(h.Data))})
+		add(Op{Kind: "clone", H: bl, Dst: nextVar})
+		nextVar++
+		if r.Bool() {
+			add(Op{Kind: "parse", H: bl, Dst: bl, Text: "{{tick}}<b>late body {{$.S0}}</b>"})
+		}
+	}
 	nOps := 4 + r.Intn(maxOps)
 	execKinds := []string{"exect", "exect", "exect", "execthtml", "exec", "exechtml"}
 	for i := 0; i < nOps; i++ {
